@@ -127,8 +127,8 @@ class C05(Profile):
                "create_feature": 3, "create_source": 4, "create_section": 3, "create_property": 2,
                "append_dim": 4, "link_dim": 5, "set_dim": 5, "link_append": 12, "link_remove": 3,
                "set_metadata": 5, "set_role": 4, "set_attr": 14, "observe": 4, "restart": 2,
-               "data_write": 5}
-    owned = ("alias_view", "lookup_failed", "lookup_wrong_entity")
+               "data_write": 5, "refused_link": 8}
+    owned = ("alias_view", "lookup_failed", "lookup_wrong_entity", "refused_changed_list")
     reopen_introspect = False
     never_off = ("restart", "link_append", "set_attr")
 
@@ -143,13 +143,26 @@ class C05(Profile):
     def tune_knobs(self, k, rng):
         k["names"] = list(P.NAMES_TREE) + rng.sample(P.NAMES_PLAIN, 4)
         k["walk_every"] = P.pick(rng, [1, 2])
-        k["max_blocks"] = rng.randint(1, 3)
+        k["max_blocks"] = rng.randint(2, 3)
         k["dtypes"] = ["int16", "float64", "str", "uint8"]
         k["max_rank"] = rng.randint(1, 3)
         k["min_extent"] = 1
         k["max_extent"] = 3
         k["n_ops"] = rng.randint(15, 45)
         k["vias"] = [0, 1, 2, 3, 4, 4, 5, 5, 5, 6, 7]
+
+    def setup_ops(self, run, rng):
+        ops = Profile.setup_ops(self, run, rng)
+        if rng.random() < 0.7:
+            # two blocks holding namesakes: the foreign-block refusals need them
+            for bn in ("s", "t"):
+                ops.append({"op": "create_block", "name": bn, "type": "t", "compr": "Auto"})
+            for bi in (0, 1):
+                ops.append({"op": "create_array", "blk": bi, "name": "u", "type": "t", "dtype": "float64",
+                            "shape": [3], "vseed": 0, "route": "data", "compr": "Auto"})
+                ops.append({"op": "create_tag", "blk": bi, "name": "u", "type": "t", "position": [1.0]})
+                ops.append({"op": "create_source", "par": bi, "name": "u", "type": "t"})
+        return ops
 
     def after_op(self, run, op, res):
         from .ops_struct import observe_all_paths
